@@ -111,6 +111,8 @@ Fixed == << [l |-> "tag",       t |-> TagStruct],
             [l |-> "embgen",    t |-> Struct(<<Fld(TRUE, IntT, "", FALSE), Fld(TRUE, Inst(IntT), "", TRUE)>>)],
             [l |-> "embgen",    t |-> Named(TRUE, Struct(<<Fld(TRUE, Ptr(Inst(EB)), "", TRUE), Fld(FALSE, StrT, "", FALSE)>>), "vS")],
             [l |-> "namedfunc", t |-> Named(TRUE, Func(<<>>, <<>>, FALSE), "none")],
+            [l |-> "mapptrkey", t |-> Map(Ptr(IntT), IntT)],
+            [l |-> "namedptr",  t |-> Named(TRUE, Ptr(IntT), "none")],
             [l |-> "zerosize",  t |-> Array(2, Struct(<<Fld(TRUE, IntT, "", FALSE), Fld(TRUE, Struct(<<>>), "", FALSE)>>))],
             [l |-> "stringer",  t |-> Ptr(Named(TRUE, Struct(<<Fld(TRUE, IntT, "", FALSE)>>), "pS"))],
             [l |-> "stringer",  t |-> Slice(VI)],
